@@ -219,6 +219,8 @@ pub fn root_case(root: &Root, script: Vec<Vec<f64>>) -> PlanCase {
                 radius: a.goal_radius,
                 rng_sampler: false,
             },
+            extra_starts: vec![],
+            no_start: false,
         }],
         planner: root.planner,
         step: a.step,
@@ -231,6 +233,7 @@ pub fn root_case(root: &Root, script: Vec<Vec<f64>>) -> PlanCase {
         goal_fail_at: None,
         empty_starts: false,
         query_cap: 400_000,
+        world2: None,
     }
 }
 
